@@ -2,8 +2,9 @@
 //! Correspondence with model/Adaptors.v (scripted inner object wrapped by the REAL adaptors,
 //! tokio/futures polled by hand with a no-op waker) + independent oracle + rayon runs.
 //! The oracle (`apply_reps`, the transparency comparisons in `run_seq`) is written from the property
-//! text; where /repo HEAD departs from it the failure gets one of four narrow classes (see the two
-//! switches below and docs/C17.md "Findings").
+//! text.  /repo HEAD meets it; the four defects this oracle found last (fixed by 7fc986e, 3a319c2,
+//! c811d79, 2747e49) keep their narrow classes, so a regression is reported under the same name
+//! (docs/C17.md "Findings").  The correspondence compares with the model variant `head_code`.
 use futures_core::Stream;
 use indicatif::{ParallelProgressIterator, ProgressBar, ProgressDrawTarget, ProgressFinish, ProgressIterator};
 use rayon::prelude::*;
@@ -14,36 +15,6 @@ use std::sync::atomic::{AtomicU64, Ordering};
 use std::task::{Context, Poll, RawWaker, RawWakerVTable, Waker};
 use tokio::io::{AsyncBufRead, AsyncRead, AsyncSeek, AsyncWrite, ReadBuf};
 use verif_harness::*;
-
-// ------------------------------------------------------------------ switches (the only two things to flip)
-/// Which of the candidate repairs /verif/docs/patches/C17-<name>.diff the tree under test (/repo)
-/// contains.  It selects the variant of the Coq model (model/Adaptors.v `variant`) the
-/// correspondence compares the implementation with; the ORACLE does not look at it (it states the
-/// property, whatever the code does).  Flip an entry to `true` after committing that patch to /repo.
-struct Patches {
-    stream_size_hint: bool,     // C17-stream-size-hint.diff
-    stream_end_guard: bool,     // C17-stream-end-guard.diff
-    poll_read_saturating: bool, // C17-poll-read-saturating.diff
-    async_write_vectored: bool, // C17-async-write-vectored.diff
-}
-const REPO_HAS: Patches = Patches { stream_size_hint: true, stream_end_guard: true, poll_read_saturating: true, async_write_vectored: true };
-
-/// The four deviations of /repo HEAD from the property text that the oracle detects
-/// (`stream-size-hint-not-forwarded`, `stream-end-refinishes-finished-bar`,
-/// `poll-read-filled-shrunk-underflow`, `async-write-vectored-not-forwarded`) are neither repaired in
-/// /repo nor listed as open in known_findings.json yet.  While this is `false` they are COUNTED in the
-/// evidence distribution (`unreported-finding:<class>`) but not reported as oracle failures; set it
-/// to `true` as soon as the patches are committed (then nothing is left to report) or the classes are
-/// registered as open findings (then `./check` prints KNOWN-FINDING for them).
-const REPORT_OPEN_FINDINGS: bool = true;
-
-fn finding(s: &mut Session, class: &str, detail: String, desc: String) {
-    if REPORT_OPEN_FINDINGS {
-        s.fail(class, detail, desc);
-    } else {
-        s.count(&format!("unreported-finding:{class}"));
-    }
-}
 
 // ------------------------------------------------------------------ scripted inner object (state machine `St`, handle `Scripted`)
 #[derive(Clone, Debug, PartialEq)]
@@ -1134,7 +1105,7 @@ fn apply_reps(e: &Expect, reps: &[Rep], cfg: &BarCfg) -> Expect {
     a
 }
 
-fn run_seq(s: &mut Session, fam: &str, cfg: &BarCfg, script: &[Ev], steps: &[Step], expect_class: Option<&str>) {
+fn run_seq(s: &mut Session, fam: &str, cfg: &BarCfg, script: &[Ev], steps: &[Step]) {
     let desc = format!(
         "seq family={fam} {} script=[{}] steps=[{}]",
         cfg.desc(),
@@ -1148,8 +1119,6 @@ fn run_seq(s: &mut Session, fam: &str, cfg: &BarCfg, script: &[Ev], steps: &[Ste
             .collect::<Vec<_>>()
             .join("; ")
     );
-    let _ = expect_class;
-    let s = &mut *s;
     // the unwrapped object
     let (mut bare, bare_st) = Scripted::new(script);
     // the adaptor around an identical object
@@ -1200,12 +1169,11 @@ fn run_seq(s: &mut Session, fam: &str, cfg: &BarCfg, script: &[Ev], steps: &[Ste
                     Ok(r) => r,
                     Err(e) => {
                         // the adaptor must not add a panic of its own, whatever the inner object does.
-                        // Class of finding D-c = a predicate on the input: poll_read on an inner reader
+                        // Class (defect fixed by c811d79) = a predicate on the input: poll_read on an inner reader
                         // that shrinks a non-empty filled region
                         let shrink = matches!((c, &peek), (Call::PollRead(f, _), Ev::Shrink(k)) if *f > 0 && *k > 0);
                         if shrink {
-                            finding(
-                                s,
+                            s.fail(
                                 "poll-read-filled-shrunk-underflow",
                                 format!("step #{i} {}: the bare object returned {want:?}; the adaptor panicked: {e}", c.coq()),
                                 desc.clone(),
@@ -1234,11 +1202,10 @@ fn run_seq(s: &mut Session, fam: &str, cfg: &BarCfg, script: &[Ev], steps: &[Ste
                 };
                 let vectored = matches!(c, Call::PollWriteVectored(_) | Call::IsWriteVectored);
                 if vectored {
-                    // finding D-d: class = the call is one of the two tokio AsyncWrite methods the adaptor
-                    // does not forward, and what the caller / the inner object saw differs from the bare run
+                    // class of the defect fixed by 2747e49: the call is one of the two tokio AsyncWrite methods the adaptor
+                    // did not forward before that fix, and what the caller / the inner object saw differs from the bare run
                     if got != want || reps != bare_reps || inner_now != bare_now {
-                        finding(
-                            s,
+                        s.fail(
                             "async-write-vectored-not-forwarded",
                             format!(
                                 "step #{i} {}: adaptor returned {got:?}, inner calls {reps:?}, inner (offset, arghash) {inner_now:?}; bare object {want:?}, {bare_reps:?}, {bare_now:?}",
@@ -1251,9 +1218,8 @@ fn run_seq(s: &mut Session, fam: &str, cfg: &BarCfg, script: &[Ev], steps: &[Ste
                     }
                 } else if got != want {
                     match c {
-                        // finding D-a: class = the call is Stream::size_hint and the results differ
-                        Call::StreamSizeHint => finding(
-                            s,
+                        // class of the defect fixed by 7fc986e: the call is Stream::size_hint and the results differ
+                        Call::StreamSizeHint => s.fail(
                             "stream-size-hint-not-forwarded",
                             format!("step #{i}: Stream::size_hint() through the adaptor {got:?}, bare object {want:?}"),
                             desc.clone(),
@@ -1303,15 +1269,15 @@ fn run_seq(s: &mut Session, fam: &str, cfg: &BarCfg, script: &[Ev], steps: &[Ste
                     exp = a;
                 } else {
                     let detail = format!("step #{i} {}: inner reported {reps:?}; getters show {obs:?}, property defines {a:?}", c.coq());
-                    // finding D-b: class = a Stream reported Ready(None) through an adaptor whose bar was
+                    // class of the defect fixed by 3a319c2: a Stream reported Ready(None) through an adaptor whose bar was
                     // already finished before the call, and the getters changed
                     let stream_end_again = matches!(c, Call::PollNext) && reps == [Rep::End] && was_finished;
-                    // finding D-c in builds without overflow checks: no panic, the position moves back
+                    // the c811d79 defect in builds without overflow checks: no panic, the position moved back
                     let shrink = matches!((c, &peek), (Call::PollRead(f, _), Ev::Shrink(k)) if *f > 0 && *k > 0);
                     if stream_end_again {
-                        finding(s, "stream-end-refinishes-finished-bar", detail, desc.clone());
+                        s.fail("stream-end-refinishes-finished-bar", detail, desc.clone());
                     } else if shrink {
-                        finding(s, "poll-read-filled-shrunk-underflow", detail, desc.clone());
+                        s.fail("poll-read-filled-shrunk-underflow", detail, desc.clone());
                     } else {
                         let class = if a.pos != obs.pos && a.fin == obs.fin {
                             match c {
@@ -1708,9 +1674,8 @@ fn run_composite(s: &mut Session, r: &mut Rng) {
     let (a, b) = (st.lock().unwrap().clone(), bare_st.lock().unwrap().clone());
     let differs = got != want || a.ctr != b.ctr || a.sink != b.sink || a.log != b.log;
     if differs && which == 10 {
-        // only poll_write_vectored / is_write_vectored are called here: finding D-d
-        finding(
-            s,
+        // only poll_write_vectored / is_write_vectored are called here: the 2747e49 class
+        s.fail(
             "async-write-vectored-not-forwarded",
             format!("adaptor: {got}, inner calls {:?}; bare: {want}, inner calls {:?}", a.log, b.log),
             desc.clone(),
@@ -1960,18 +1925,9 @@ fn run_rayon(s: &mut Session, r: &mut Rng, kind: usize, threads: usize, n: u64, 
 // ------------------------------------------------------------------ main
 fn main() {
     let a = args();
-    let header = format!(
-        "From IndModel Require Import Base Adaptors.\nOpen Scope N_scope.\n(* which candidate patches the tree under test contains: harness/src/bin/c17.rs REPO_HAS *)\nDefinition repo_variant : variant :=\n  {{| v_stream_size_hint := {}; v_stream_end_guard := {};\n     v_poll_read_saturating := {}; v_async_write_vectored := {} |}}.\n",
-        cbool(REPO_HAS.stream_size_hint),
-        cbool(REPO_HAS.stream_end_guard),
-        cbool(REPO_HAS.poll_read_saturating),
-        cbool(REPO_HAS.async_write_vectored)
-    );
-    let mut s = Session::new(&a, "C17", &header, "c17case", "(adaptors_check repo_variant)");
-    s.count(&format!(
-        "model-variant:size_hint={} end_guard={} saturating={} write_vectored={}",
-        REPO_HAS.stream_size_hint, REPO_HAS.stream_end_guard, REPO_HAS.poll_read_saturating, REPO_HAS.async_write_vectored
-    ));
+    let header = "From IndModel Require Import Base Adaptors.\nOpen Scope N_scope.\n";
+    // head_code = the variant of the model that transcribes /repo HEAD (all four fixes present)
+    let mut s = Session::new(&a, "C17", header, "c17case", "(adaptors_check head_code)");
     s.rule = "seq: one scripted inner object (script = list of short/zero/over-long transfers, errors, Pending, items, end, partial-transfer errors, ReadBuf shrink; its AsyncWrite is genuinely vectored) wrapped by the real ProgressBarIter (hidden bar; len/pos0/on_finish from the seed, pos0 near 2^64 included), 0..14 calls of one trait family (or mixed; awrite includes poll_write_vectored / is_write_vectored) interleaved with set_position/finish/abandon/reset/set_length on the bar; the same calls on an identical bare object; non-trivial = at least 2 steps. composite: std default methods (read_to_end, io::copy, write_all, read_until, nth, count, last, rev, fold) and repeated poll_write_vectored as callers, oracle only. rayon: 22 pipelines (drive, drive_unindexed, with_producer paths, early exit) x 1..16 threads; distinct = distinct description text".into();
     let mut r = Rng::new(a.seed);
     let cfg0 = BarCfg { len: Some(5), pos0: 0, fin: 0, msg: "done".into() };
@@ -1997,15 +1953,15 @@ fn main() {
         // short / zero / over-long reads, errors
         ("read", &cfgm, vec![Ev::N(0), Ev::N(3), Ev::N(99), Ev::Err(4), Ev::Pend], vec![SC(C::Read(5)), SC(C::Read(5)), SC(C::Read(5)), SC(C::Read(5)), SC(C::Read(5)), SC(C::Read(5))]),
         ("read", &cfg0, vec![Ev::N(7), Ev::N(2)], vec![SC(C::ReadVectored(vec![3, 0, 5])), SC(C::ReadToString), SC(C::ReadVectored(vec![]))]),
-        // Iterator and Stream: finish on exhaustion, once (HEAD: the stream case is finding D-b)
+        // Iterator and Stream: finish on exhaustion, once (the stream case: regression witness of 3a319c2)
         ("iter", &cfg0, vec![Ev::Item(1), Ev::End, Ev::End], vec![SC(C::Next), SC(C::Next), SU(UserOp::SetPos(3)), SC(C::Next)]),
         ("stream", &cfg0, vec![Ev::Item(1), Ev::End, Ev::End], vec![SC(C::PollNext), SC(C::PollNext), SU(UserOp::SetPos(3)), SC(C::PollNext)]),
-        // D-a witness (C17_stream_size_hint_refuted): Stream::size_hint with items ahead
+        // regression witness of 7fc986e (C17_pre_fix_stream_size_hint_refuted): Stream::size_hint with items ahead
         ("stream", &cfg0, vec![Ev::Item(1), Ev::Item(2)], vec![SC(C::StreamSizeHint), SC(C::PollNext), SC(C::StreamSizeHint)]),
-        // D-b witness (C17_stream_end_refuted): the stream ends on a bar the user abandoned at 3 / finished
+        // regression witnesses of 3a319c2 (C17_pre_fix_stream_end_refuted): the stream ends on a bar the user abandoned at 3 / finished
         ("stream", &cfg0, vec![Ev::End], vec![SU(UserOp::SetPos(3)), SU(UserOp::Abandon), SC(C::PollNext)]),
         ("stream", &cfgm, vec![Ev::End, Ev::End], vec![SU(UserOp::Finish), SC(C::PollNext), SU(UserOp::Reset), SC(C::PollNext)]),
-        // D-d witnesses (C17_async_write_vectored_refuted, C17_is_write_vectored_refuted)
+        // regression witnesses of 2747e49 (C17_pre_fix_async_write_vectored_refuted, C17_pre_fix_is_write_vectored_refuted)
         ("awrite", &cfg0, vec![Ev::N(4)], vec![SC(C::IsWriteVectored), SC(C::PollWriteVectored(vec![vec![1, 2], vec![3, 4, 5]]))]),
         ("awrite", &cfg0, vec![Ev::Pend, Ev::N(9), Ev::Err(5), Ev::N(1)], vec![SC(C::PollWriteVectored(vec![vec![], vec![7], vec![8, 9]])), SC(C::PollWriteVectored(vec![vec![], vec![7], vec![8, 9]])), SC(C::PollWriteVectored(vec![vec![1]])), SC(C::PollWriteVectored(vec![])), SC(C::IsWriteVectored)]),
         // non-fused sources
@@ -2020,13 +1976,13 @@ fn main() {
         ("awrite", &cfg0, vec![Ev::Pend, Ev::N(2), Ev::Err(5), Ev::Pend, Ev::N(0), Ev::Pend, Ev::N(0)], vec![SC(C::PollWrite(vec![1, 2, 3])), SC(C::PollWrite(vec![1, 2, 3])), SC(C::PollWrite(vec![3])), SC(C::PollFlush), SC(C::PollFlush), SC(C::PollShutdown), SC(C::PollShutdown)]),
         // poll_read: Pending counts 0, Ready(Err) after bytes counts them, EOF
         ("aread", &cfg0, vec![Ev::Pend, Ev::N(3), Ev::PartialErr(3, 5), Ev::Err(5), Ev::End, Ev::N(99)], vec![SC(C::PollRead(0, 8)), SC(C::PollRead(2, 8)), SC(C::PollRead(2, 10)), SC(C::PollRead(1, 4)), SC(C::PollRead(0, 4)), SC(C::PollRead(3, 6))]),
-        // D-c witness (C17_poll_read_shrink_refuted): the inner reader shrinks ReadBuf::filled
+        // regression witness of c811d79 (C17_pre_fix_poll_read_shrink_refuted): the inner reader shrinks ReadBuf::filled
         ("aread", &cfg0, vec![Ev::Shrink(0), Ev::Shrink(1)], vec![SC(C::PollRead(2, 8)), SC(C::PollRead(2, 8))]),
         // seeks in all modes, then data
         ("seek", &cfg0, vec![Ev::N(10), Ev::N(4), Ev::N(u64::MAX), Ev::Err(22), Ev::N(3)], vec![SC(C::Seek(SeekFrom::Start(10))), SC(C::Seek(SeekFrom::Current(-6))), SC(C::Seek(SeekFrom::End(i64::MIN))), SC(C::Seek(SeekFrom::Start(1))), SC(C::StreamPosition), SC(C::Read(3))]),
     ];
     for (fam, cfg, script, steps) in &corpus {
-        run_seq(&mut s, fam, cfg, script, steps, None);
+        run_seq(&mut s, fam, cfg, script, steps);
     }
     size_hint_witnesses(&mut s);
     // F1: a part of a split producer finished the bar (any thread count, even 1)
@@ -2046,7 +2002,7 @@ fn main() {
     };
     for _ in 0..n_seq {
         let (fam, cfg, script, steps) = gen_seq(&mut r);
-        run_seq(&mut s, fam, &cfg, &script, &steps, None);
+        run_seq(&mut s, fam, &cfg, &script, &steps);
     }
     for _ in 0..n_comp {
         run_composite(&mut s, &mut r);
